@@ -693,6 +693,45 @@ def r1612(ctx):
         raise AnalysisError("R-16.12: the re-use-if-present idiom of the velocity-generation input was not found in gromacs.py")
 
 
+def r1613(ctx, impls):
+    """Velocity regeneration reads its settings, it does not consume them. `vel_settings` is the
+    ensemble's shared `tis_set` table: a regeneration that pops / deletes / overwrites a key
+    changes what every later regeneration of that ensemble (and the restart file) sees - e.g.
+    `pop("zero_momentum")` makes the first regeneration honour the option and all later ones
+    fall back to the default. No mutator is applied to the settings parameter of any
+    modify_velocities (nor to an alias of it)."""
+    rid = "R-16.13"
+    MUT = ("pop", "popitem", "clear", "update", "setdefault", "__setitem__", "__delitem__")
+    n = 0
+    for m, cname, f in impls:
+        ps = [a.arg for a in f.args.args]
+        if len(ps) < 3:
+            continue
+        sp = ps[2]
+        fl = flow_of(f)
+        aliases = {sp}
+        for st in walk_local(f):
+            if isinstance(st, ast.Assign) and len(st.targets) == 1 and isinstance(st.targets[0], ast.Name) and isinstance(st.value, ast.Name) and st.value.id in aliases:
+                aliases.add(st.targets[0].id)
+        n += 1
+        hit = None
+        for x in walk_local(f):
+            if isinstance(x, ast.Call) and isinstance(x.func, ast.Attribute) and x.func.attr in MUT and isinstance(x.func.value, ast.Name) and x.func.value.id in aliases:
+                hit = x
+            if isinstance(x, (ast.Assign, ast.AugAssign)):
+                for t in (x.targets if isinstance(x, ast.Assign) else [x.target]):
+                    if isinstance(t, ast.Subscript) and isinstance(t.value, ast.Name) and t.value.id in aliases:
+                        hit = x
+            if isinstance(x, ast.Delete) and any(isinstance(t, ast.Subscript) and isinstance(t.value, ast.Name) and t.value.id in aliases for t in x.targets):
+                hit = x
+        if hit is not None:
+            ctx.bad(rid, hit, f"{cname}.modify_velocities modifies the settings table it is handed (`{short(hit, 50)}`): `{sp}` is the ensemble's shared tis_set, so the option is honoured by the first regeneration only - every later regeneration of the ensemble (later jumps of a wire-fencing move, later jobs, a restart) falls back to the default, e.g. velocities with net momentum although zero_momentum = true", construct=f"{cname}.modify_velocities: {short(hit, 50)}")
+        else:
+            ctx.ok(rid, f, f"{cname}.modify_velocities only reads `{sp}`")
+    if n < 4:
+        raise AnalysisError(f"R-16.13: only {n} modify_velocities implementations with a settings parameter found")
+
+
 def run(ctx):
     ctx.rule("R-16.1", "positions, box and identities written are exactly those read from the dumped frame; only velocities are regenerated", floor=14)
     ctx.rule("R-16.2", "the regenerated frame goes to a fresh file under exe_dir; system.config re-pointed; caller passes a copy", floor=10)
@@ -711,6 +750,8 @@ def run(ctx):
     from .shared import ensemble_record_agreement
     ctx.attempt(ensemble_record_agreement, ctx, "R-16.9", [TIS], None, ": zero_momentum = true is ignored by engines whose default is false (net momentum kept), zero_momentum = false by those whose default is true")
     impls = implementations(ctx.tree)
+    ctx.rule("R-16.13", "velocity regeneration only reads the settings table it is handed (the ensemble's shared tis_set): no pop / delete / item store on it in any modify_velocities", floor=4)
+    ctx.attempt(r1613, ctx, impls)
     armed = 0
     for m, cname, f in impls:
         if m.rel == AMS:
@@ -743,6 +784,7 @@ def run(ctx):
 
 
 VARIANTS = [
+    B("c16-lammps-pops-zero-momentum", LAMMPS, 'vel_settings.get("zero_momentum", False)', 'vel_settings.pop("zero_momentum", False)', "R-16.13", control=True, why="seeded C16_l"),
     B("c16-genvel-input-cached-in-input-dir", GROMACS, '        gen_mdp = os.path.join(self.exe_dir, "genvel.mdp")', '        gen_mdp = os.path.join(self.input_path, "genvel.mdp")', "R-16.12", control=True, why="seeded C16_k"),
     B("c16-sigma-reciprocal-of-integer-masses", ENGBASE, "            sigma_v = np.sqrt(kbt * (1 / mass))", "            sigma_v = np.sqrt(kbt * np.reciprocal(mass))", "R-16.8", control=True, why="seeded C16_j"),
     K("c16-keep-sigma-reciprocal-of-float-masses", ENGBASE, "            sigma_v = np.sqrt(kbt * (1 / mass))", "            sigma_v = np.sqrt(kbt * np.reciprocal(mass.astype(float)))"),
